@@ -10,8 +10,11 @@ cp /repo/go.sum harness/go.sum
 (cd harness && "$GO" build -tags verif -o ../.build/amverif ./cmd/amverif)
 T=$(mktemp -d)
 cp spec/*.tla "$T"/
-for m in MCMachine TraceMachine; do
-  (cd "$T" && tla-sany $m.tla > $m.sany.log 2>&1) || { cat "$T"/$m.sany.log; rm -rf "$T"; exit 1; }
+fail=0
+for f in spec/MC*.tla spec/Trace*.tla; do
+  m=$(basename "$f" .tla)
+  (cd "$T" && tla-sany "$m.tla" > "$m.sany.log" 2>&1) || { echo "SANY failed for $m"; tail -20 "$T/$m.sany.log"; fail=1; }
 done
 rm -rf "$T"
+[ "$fail" = 0 ] || exit 1
 echo setup ok
